@@ -16,7 +16,7 @@ pub fn def() -> CheckDef {
 fn meta(_ctx: &Ctx) -> Meta {
     Meta {
         level: "exploration",
-        rule: "bounded-exhaustive component tuples (names over {a,1,.,-,_} up to length 3 starting alphanumeric; epoch in {\"\",0,1,12,2^31-1,2^31,2^32-1}; version and release non-empty over {a,1,.,~,^} up to length 2; arch in {x,x86_64,noarch,a1}) + seeded random tuples with components up to length 12 + the NEVRAs of the repository's asset packages: format with Display / as_normalized_form / nvra, parse again, compare component-wise with the tuple itself; every CompressionType through Display->FromStr; no-panic on all strings up to length 5 over {-,.,:,a,é} and on random text. distinct_nontrivial = distinct tuples/strings".into(),
+        rule: "bounded-exhaustive component tuples (names over {a,1,.,-,_} up to length 3 starting alphanumeric; epoch in {\"\",0,1,12,2^31-1,2^31,2^32-1}; version and release non-empty over {a,1,.,~,^} up to length 2; arch in {x,x86_64,noarch,a1}) + seeded random tuples with components up to length 12 + the NEVRAs of the repository's asset packages: format with Display / as_normalized_form / nvra, parse again, compare component-wise with the tuple itself; every CompressionType through Display->FromStr; no-panic on all strings up to length 5 over {-,.,:,a,é} and on random text. The compression-type round trip is repeated in builds of the library with three other cargo feature sets (none, gzip only, the crate's default set; featprobe/). distinct_nontrivial = distinct tuples/strings".into(),
         assumptions: vec!["real-package component constraints (rpm's own): name has no ':', version/release have no '-' or ':', arch has no '-', '.' or ':', epoch is digits or empty, all but epoch non-empty".into()],
         floor_distinct: 1000,
     }
@@ -279,6 +279,28 @@ fn run(ctx: &Ctx, rep: &Report) {
     rep.eval(nrt);
     rep.count("random_texts", nrt);
     rep.sample(json!({"tuple": ["a-1", "", "1.0", "1.a", "x86_64"], "formatted": Nevra::new("a-1", "", "1.0", "1.a", "x86_64").to_string()}));
+    feature_sets(ctx, rep);
+}
+
+/// the compression-type round trip again in builds of the library with other cargo feature sets
+/// (no optional feature at all, gzip only, the default set): the type and its name exist in all of them
+fn feature_sets(ctx: &Ctx, rep: &Report) {
+    for o in crate::util::probe::observations(ctx, rep) {
+        if o.fields.first().map(|s| s.as_str()) != Some("roundtrip") || o.fields.len() < 4 {
+            continue;
+        }
+        rep.eval(1);
+        rep.nontrivial(hash_bytes(format!("probe|{}|{}", o.set, o.fields[1]).as_bytes()));
+        rep.count(&format!("compression_type_roundtrips.{}", o.set), 1);
+        if o.fields[3] != "ok" {
+            rep.violation(
+                format!("compression-type-roundtrip:{}", o.fields[1]),
+                format!("built with feature set {}: CompressionType::{} prints {:?}, and parsing that gives {}", o.set, o.fields[1], o.fields[2], o.fields[3]),
+                json!({"kind": "feature-probe", "set": o.set, "observation": o.fields.join(" ")}),
+                0,
+            );
+        }
+    }
 }
 
 fn replay(_ctx: &Ctx, w: &serde_json::Value, rep: &Report) {
